@@ -1,0 +1,11 @@
+//go:build !verif
+
+// Package verifhook provides named hook points for external runtime monitors.
+// Without the `verif` build tag At is an empty function that the compiler inlines away.
+package verifhook
+
+// At marks a hook point. It does nothing unless built with the `verif` tag.
+func At(point string) {}
+
+// AtArg marks a hook point that carries an argument. It does nothing unless built with the `verif` tag.
+func AtArg(point string, arg any) {}
